@@ -201,7 +201,10 @@ fn decode_op_inner(r: &Rec, len: usize, kind: KindId, mix: CMix, faulty: bool) -
                 3 => isize::MAX as usize / 16 + 1 + r.b(8) as usize,
                 _ => (usize::MAX / 32 + 1) - len.min(8),
             };
-            if sel == 28 { Op::Reserve(n, true) } else { Op::ReserveExact(n, true) }
+            // (the panicking twin unwinds with "capacity overflow", like std; not under fault plans, where a
+            //  refused grant in a panicking method would abort)
+            let t = faulty || r.b(9) & 1 == 0;
+            if sel == 28 { Op::Reserve(n, t) } else { Op::ReserveExact(n, t) }
         }
         28 => Op::Reserve(if mix == CMix::C07 { r.b(5) as usize * 3 } else { r.b(5) as usize % 40 }, try_),
         29 => Op::ReserveExact(if mix == CMix::C07 { r.b(5) as usize * 3 } else { r.b(5) as usize % 40 }, try_),
@@ -725,6 +728,16 @@ fn step<'b, T: Elem + Clone + PartialEq>(st: &mut St, l: &mut Live<'b, T>, op: &
     let huge = matches!(op, Op::Reserve(n, _) | Op::ReserveExact(n, _) if *n > 1 << 48);
     if huge {
         st.class("overflow_request");
+        // std panics with "capacity overflow" for the same request; zero-sized elements only overflow the count
+        if is_try(op) == Some(false) {
+            let n = match op {
+                Op::Reserve(n, _) | Op::ReserveExact(n, _) => *n,
+                _ => 0,
+            };
+            if !T::ZST || len0.checked_add(n).is_none() {
+                exp = MRes::Panic;
+            }
+        }
     }
     let mut part = None;
     match real {
@@ -1739,7 +1752,30 @@ fn run_mut<'a, T: Elem + Clone + PartialEq>(st: &mut St, h: &Hdr, arena: &mut (d
                 }
             }
             model_final = l.m.clone();
-            if finalise && !st.stop {
+            if r0.b(8) % 5 == 0 && !st.stop && with_reg(|r| r.panic_at.is_none()) {
+                // consumed by value through into_iter, partially, from both ends; the rest is dropped by the iterator
+                let (f, b) = (r0.b(9) as usize % 4, r0.b(10) as usize % 3);
+                st.note(|| format!("into_iter(): {f} from the front, {b} from the back, rest dropped"));
+                let (_, yielded) = l.v.consume(Consume::IntoIter(f, b));
+                let mut expm = model_final.clone();
+                let mut expy = vec![];
+                for _ in 0..f {
+                    if !expm.is_empty() {
+                        expy.push(expm.remove(0));
+                    }
+                }
+                for _ in 0..b {
+                    if let Some(x) = expm.pop() {
+                        expy.push(x);
+                    }
+                }
+                if yielded != expy {
+                    st.fail("C08/returned-value", format!("{what}: into_iter yielded {yielded:?}, expected {expy:?}"));
+                }
+                st.partial_drop = true;
+                st.class("partial_iterator");
+                check_registry(st, &what);
+            } else if finalise && !st.stop {
                 let (rest, _) = l.v.consume(Consume::IntoBoxedSlice);
                 if let Some(b) = rest {
                     let got: Vec<u32> = b.snapshot().iter().map(|(_, v)| *v).collect();
